@@ -5,7 +5,8 @@ ENGINE = 'mirfacts+genscan'
 EXPLANATION = ('All impls of CallbackRetVal, SkipRetVal and From<SkipResult> are enumerated from the type checker and, for each, the map '
                'input variant -> constructed CallbackResult variant (+ payload: constructor applied / value itself / err.into()) is read off the MIR and '
                'compared with the documented table, exhaustively (unknown impl or missing row is a violation). The generated action dispatch, the '
-               'one-callback-call-per-leaf shape and the Skip restart sequence are decided on generated code (genscan rules G9a-c).')
+               'one-callback-call-per-leaf shape and the Skip restart sequence are decided on generated code (genscan rules G9a-c).'
+               ' Since the E5 engine: the leaf a state records in the generated code is the leaf of the printed graph (G19), which is the highest-priority pattern of the reference match state (G20).')
 
 
 def run(ctx, rep):
